@@ -111,7 +111,23 @@ impl Connector for LoadBalanceConnector {
         };
         let next = conn.name().to_owned();
         debug!("{}: selected connector: {}", self.name, next);
-        ctx.write().await.set_connector(next);
+        // balancers may be nested, but a balancer that (indirectly) contains itself would
+        // recurse until the stack overflows: give up after more hops than there are connectors
+        let hops = ctx
+            .read()
+            .await
+            .extra("loadbalance-hops")
+            .and_then(|x| x.parse::<usize>().ok())
+            .unwrap_or(0);
+        ensure!(
+            hops <= state.connectors.len(),
+            "{}: load balancers refer to each other in a cycle",
+            self.name
+        );
+        ctx.write()
+            .await
+            .set_extra("loadbalance-hops", hops + 1)
+            .set_connector(next);
         conn.connect(state, ctx).await
     }
 }
